@@ -190,6 +190,11 @@ def showGrid (g : Grid) : String :=
      | some w => showWeights w
      | none => "index")
 
+/-- the dictionary of `to_dict`, canonically: names, the regular triple, the arrays, the stored weights -/
+def showDict (d : Dict) : String :=
+  d.coordinateSystem ++ " " ++ d.type ++ " " ++ showRatList d.delta ++ " " ++ showNatList d.dims ++ " " ++
+    showRatList d.zero ++ " " ++ showRatLists d.arrays ++ " " ++ showWeights d.weights
+
 /-- the matrix of a rotation request: `r2 c s` or `r3 a b d c s` -/
 def parseMatrix? : List String → Option (List (List Rat))
   | ["r2", c, s] => do let c ← parseRat? c; let s ← parseRat? s; pure (rot2 c s)
@@ -229,6 +234,24 @@ def stepEffect (st : Store) : List String → Option (Effect × String)
   | ["copy", i] => do
     let i ← parseNat? i; let g ← st[i]?
     pure (Effect.push g, s!"ok {st.length}")
+  | ["todict", i] => do
+    -- `grid.to_dict()`: what is written
+    let i ← parseNat? i; let g ← st[i]?
+    pure (Effect.keep, "ok " ++ showDict g.toDict)
+  | ["rtdict", i] => do
+    -- `Grid.from_dict(grid.to_dict())`
+    let i ← parseNat? i; let g ← st[i]?
+    match Grid.fromDict g.toDict with
+    | some g' => pure (Effect.push g', s!"ok {st.length}")
+    | none => pure (Effect.keep, "err key")
+  | ["rtdictas", i, sys, ty] => do
+    -- `Grid.from_dict` of the dictionary with its names replaced (`=` keeps one); unknown names: KeyError
+    let i ← parseNat? i; let g ← st[i]?
+    let d := g.toDict
+    match Grid.fromDict { d with coordinateSystem := if sys = "=" then d.coordinateSystem else sys,
+                                 type := if ty = "=" then d.type else ty } with
+    | some g' => pure (Effect.push g', s!"ok {st.length}")
+    | none => pure (Effect.keep, "err key")
   | ["scale", i, a] => do
     let i ← parseNat? i; let g ← st[i]?; let a ← parseScaleArg? a
     match g.scale a with
